@@ -57,13 +57,18 @@ const ATOM_CACHE_SIZE: usize = 256;
 
 #[derive(Debug, Clone)]
 pub struct AtomCache {
+    /// The atoms an `ATOM_CACHE_REF` resolves to: the references of the distribution
+    /// header read last, by their position in that header.
     atoms: HashMap<u8, Atom>,
+    /// The cache proper, kept across messages: (segment index, internal index) -> atom.
+    slots: HashMap<(u8, u8), Atom>,
 }
 
 impl AtomCache {
     pub fn new() -> Self {
         Self {
             atoms: HashMap::with_capacity(ATOM_CACHE_SIZE),
+            slots: HashMap::new(),
         }
     }
 
@@ -590,6 +595,7 @@ fn parse_dist_header_with_cache<'a>(
         };
 
         let is_new_entry = (flag_nibble & 0x08) != 0;
+        let segment_index = flag_nibble & 0x07;
 
         if is_new_entry {
             let (new_input, atom_len) = if long_atoms {
@@ -606,12 +612,34 @@ fn parse_dist_header_with_cache<'a>(
                 .map_err(|_| nom::Err::Failure(NomError::new(input, ErrorKind::Char)))?;
 
             log::debug!(
-                "Inserting atom '{}' at cache index {}",
+                "Inserting atom '{}' at cache slot ({}, {}), reference {}",
                 atom_str,
-                internal_segment_index
+                segment_index,
+                internal_segment_index,
+                i
             );
-            cache.insert(internal_segment_index, Atom::new(atom_str));
+            let atom = Atom::new(atom_str);
+            cache
+                .slots
+                .insert((segment_index, internal_segment_index), atom.clone());
+            cache.insert(i, atom);
             input = new_input;
+        } else {
+            // a reference to an entry created by an earlier header
+            match cache.slots.get(&(segment_index, internal_segment_index)) {
+                Some(atom) => {
+                    let atom = atom.clone();
+                    cache.insert(i, atom);
+                }
+                None => {
+                    log::error!(
+                        "Atom cache slot ({}, {}) referenced before it was filled",
+                        segment_index,
+                        internal_segment_index
+                    );
+                    return Err(nom::Err::Failure(NomError::new(input, ErrorKind::Tag)));
+                }
+            }
         }
     }
 
